@@ -27,7 +27,7 @@ type C07 struct {
 func init() { register(&C07{base: base{id: "C07", level: "exploration"}}) }
 
 func (c *C07) Rule() string {
-	return "one run = a short rollup history on two real proving systems (one insertion, one deletion, depth != batch, keys from the seeded stream): 1..2 valid batches are proved by the real prover (randomness from the tape) and each proof is delivered 12..20 times through a faulty channel (own hash, hash+k*r, neighbours, random, hash of a perturbed batch, hash of the earlier batch of the history and the earlier proof against the new hash, the other mode's verifier, altered A/B/C points); in between, invalid or mis-shaped parameter sets are handed to the prover; evaluations = verifier calls + prover calls; distinct = (system, delivery kind, verdict) and (system, invalid-parameter kind, oracle reason)"
+	return "one run = a short rollup history on two real proving systems (one insertion, one deletion, depth != batch, keys from the seeded stream): 1..2 valid batches are proved by the real prover (randomness from the tape) and each proof is delivered 12..20 times through a faulty channel (own hash, hash+k*r, neighbours, random, hash of a perturbed batch, hash of the earlier batch of the history and the earlier proof against the new hash, the other mode's verifier, altered A/B/C points); in between, invalid or mis-shaped parameter sets are handed to the prover; evaluations = verifier calls + prover calls; distinct = (system, delivery kind, verdict) and (system, invalid-parameter kind, oracle reason); a third of the runs are World L runs: 2..4 caller tasks hand 2..4 parameter sets each (valid batches and invalid twins under the same stated hash) to Prove* of one shared system, interleaved by the tape at every statement of the instrumented prover package"
 }
 func (c *C07) Assumptions() []string {
 	return []string{"a valid Groth16 proof verifying for a second, unrelated public input would be a break of Groth16 itself; the check treats acceptance of any non-congruent hash as a violation"}
@@ -128,7 +128,7 @@ type provedBatch struct {
 
 func (c *C07) Run(x *engine.Ctx) *engine.Violation {
 	t := x.T
-	if x.Run%5 == 3 {
+	if x.Run%3 == 1 {
 		return c.concurrentCallers(x) // World L: interleaved callers of one proving system
 	}
 	var hist []provedBatch
